@@ -594,7 +594,7 @@ def _apply_len(M, order, what, n):
         if n == 0:
             M['ELEME'], M['CONNE'] = [], []
         else:
-            for b in M['ELEME']:
+            for b in M.get('ELEME') or []:
                 if b['rocktype'] not in names:
                     b['rocktype'] = names[0]
         M = _restrict_refs(M)
